@@ -80,6 +80,7 @@ def run(ck, prop, stream, families_note, variants=None, judge=None, theorems=Non
     # 2. the stream
     ins, go, lean = ck.run_stream(stream)
     per = Counter()
+    tie_bad = []
     excused = Counter()
     claimed = Counter()
     bad = []
@@ -94,6 +95,15 @@ def run(ck, prop, stream, families_note, variants=None, judge=None, theorems=Non
         if meta.get("crash"):
             bad.append((c, ref, {"variant": "?", "par": 0}, "worker: " + " ".join(meta["crash"])))
             continue
+        # tie of the Lean machine model (Model.Seq) to the Go machines MVP-1/MVP-2: status, cycles, final state
+        for key, var in (("m1", "mvp1"), ("m2", "mvp2")):
+            rr = [x for x in res if x["variant"] == var]
+            if mods and key in ref and rr:
+                h, cyc, _, same = ref[key].split(",")
+                mstat = {"ret": "ok", "offend": "ok", "err": "err", "panic": "panic", "fuel": "hang"}[h]
+                if rr[0]["status"] != mstat or (mstat == "ok" and int(cyc) != rr[0]["cycles"]) or \
+                        (mstat == "ok" and same != "same" and not ref["stop"].startswith("notwf")):
+                    tie_bad.append(f"case {c['id']} {var}: Go {rr[0]['status']} cycles={rr[0]['cycles']} vs model {ref[key]}")
         if ref["stop"].startswith("notwf"):
             continue
         f = cpu.features(c, ref)
@@ -127,6 +137,8 @@ def run(ck, prop, stream, families_note, variants=None, judge=None, theorems=Non
     if ins:
         j = len(ins) // 2
         ck.cov["samples"] += [{"program": cpu.case_of(ins[j])["prog"], "reference": lean[j][:300], "go_first_config": go[j].split(" @@ ")[1][:300] if " @@ " in go[j] else go[j][:300]}]
+    if tie_bad:
+        ck.broken.append(f"correspondence Go MVP-1/MVP-2 vs Model.Seq differs on {len(tie_bad)} cases; first: {tie_bad[0]}")
     # 3. violations: one per (variant, verdict-kind), shrunk
     seen = set()
     for c, ref, r, v in bad:
